@@ -34,6 +34,9 @@ def x(name, i):
     return ('x', name, i)
 
 
+INF = X.fn('inf', X.num(1))
+
+
 def data_input(name, pattern, carrier='list_none', symbolic=True, values=None):
     """A caller-owned data series.
 
@@ -46,6 +49,9 @@ def data_input(name, pattern, carrier='list_none', symbolic=True, values=None):
     for i, c in enumerate(pattern):
         if c == 'p':
             els.append(Sc(x(name, i)) if values is None else values[i])
+        elif c == 'i':
+            # an infinite entry: a value every float carrier can hold, which the tests treat as invalid (masked_invalid)
+            els.append(Sc(INF))
         else:
             els.append(None)
     if carrier in ('list_none', 'list_nan', 'tuple_nan'):
@@ -53,6 +59,8 @@ def data_input(name, pattern, carrier='list_none', symbolic=True, values=None):
         for e in els:
             if e is None:
                 out.append(None if carrier == 'list_none' else float('nan'))
+            elif isinstance(e, Sc) and e.d == INF:
+                out.append(float('inf'))
             else:
                 out.append(e)
         return tuple(out) if carrier == 'tuple_nan' else out
@@ -87,6 +95,10 @@ def time_input(name, seconds, carrier='dt64'):
         return Vec.fresh(cells, kind='nd', dtype='M8', unit='ns', owner=name)
     if carrier == 'dt64_s':
         return Vec.fresh(cells, kind='nd', dtype='M8', unit='s', owner=name)
+    if carrier == 'dt64_m':
+        if any(x % 60 for x in secs):
+            raise ValueError('minute carrier needs whole minutes')
+        return Vec.fresh(cells, kind='nd', dtype='M8', unit='m', owner=name)
     if carrier == 'epoch_list':
         return [int(s) if s.denominator == 1 else s for s in secs]
     if carrier == 'epoch_array':
